@@ -14,6 +14,12 @@ def execReader (stream op : String) (a : List String) : String :=
     match Reader.udpParse cmap (unhex b) (parseNat n) with
     | some m => s!"ok {toHexField (m.bytes cmap)} pool+2"
     | none => "rejected pool+2"
+  | "udpwire", "new", _ => "ok"
+  | "udpwire", "send", [b] =>
+    let d := unhex b
+    match Reader.udpParse cmap d d.length with
+    | some m => s!"ok {toHexField (m.bytes cmap)}"
+    | none => "rejected"
   | _, _, _ => "bad-op"
 
 end Driver
